@@ -400,12 +400,92 @@ def _excluded_by(dctx, ectx):
     for k_, v_ in _decisions(ectx):
         if k_ in dd and dd[k_] != v_:
             return True
+    # the else-branch of a condition that is a conjunction (`if let Some(x) = opt.filter(p) { A } else { B }`): B is excluded where
+    # all the conjuncts hold, and the other way round
+    for first, second in ((dctx, ectx), (ectx, dctx)):
+        have = {}
+        for c in first:
+            if c[0] == "alt" and c[2] is True:
+                for x in og._conjuncts(c[1]):
+                    k_, v_ = og.decision(x[1], x[2])
+                    have[k_] = v_
+            elif c[0] == "alt":
+                k_, v_ = og.decision(c[1], c[2])
+                have[k_] = v_
+        for c in second:
+            if c[0] == "alt" and c[2] is False:
+                cj = og._conjuncts(c[1])
+                if len(cj) > 1 and all(have.get(og.decision(x[1], x[2])[0]) == og.decision(x[1], x[2])[1] for x in cj):
+                    return True
     dv = dict(x for x in (_variant_of(c) for c in dctx if c[0] == "alt") if x)
     for c in ectx:
         ve = _variant_of(c)
         if ve and ve[0] in dv and dv[ve[0]] != ve[1]:
             return True
     return False
+
+
+def followers_of(stream, i):
+    """(lines, can_end): the templates that can be the next line written after stream[i] — in the same pass, in the next round of an
+    enclosing loop, or after that loop — up to (and including) the first one that is always written; can_end when the text can end
+    without one. A line written only under further conditions can be absent: then (one of) those conditions failed, and whatever
+    depends on them is absent as well."""
+    D = stream[i]
+    found = []
+    memo = {}
+
+    def scan(start, dctx, stop_at=None):
+        key = (start, dctx, stop_at)
+        if key in memo:
+            return memo[key]
+        memo[key] = {"end"}
+        if len(memo) > 4000:
+            return {"end"}
+        j = start
+        out = None
+        while j < len(stream) and (stop_at is None or j < stop_at):
+            E = stream[j]
+            if _excluded_by(dctx, E.ctx) or any(c[0] == "star" and ("nostar", c[1]) in dctx for c in E.ctx):
+                j += 1
+                continue
+            extras = [c for c in E.ctx if c not in dctx]
+            if E not in found:
+                found.append(E)
+            if not extras:
+                out = {"definite"}
+                break
+            out = set()
+            for k_, x in enumerate(extras):
+                neg = ("alt", x[1], not x[2]) if x[0] == "alt" else ("nostar", x[1])
+                out |= scan(j + 1, dctx + tuple(extras[:k_]) + (neg,), stop_at)
+            break
+        if out is None:
+            out = {"end"}
+        memo[key] = out
+        return out
+    dctx = tuple(D.ctx)
+    pos = i + 1
+    result = None
+    while True:
+        stars_idx = [k for k, c in enumerate(dctx) if c[0] == "star"]
+        if not stars_idx:
+            result = "definite" if scan(pos, dctx) == {"definite"} else "end"
+            break
+        k = stars_idx[-1]
+        loop_ctx = dctx[:k + 1]
+        lo = i
+        while lo > 0 and tuple(stream[lo - 1].ctx[:k + 1]) == loop_ctx:
+            lo -= 1
+        hi = i + 1
+        while hi < len(stream) and tuple(stream[hi].ctx[:k + 1]) == loop_ctx:
+            hi += 1
+        if scan(pos, dctx, stop_at=hi) == {"definite"}:
+            result = "definite"
+            break
+        scan(lo, loop_ctx, stop_at=hi)      # the next round of the loop starts at its first template
+        dctx = dctx[:k]                       # .. or the loop is over
+        pos = hi
+    return found, result == "end"
 
 
 def rule_doc_comments_document(ck, F, X):
@@ -422,74 +502,9 @@ def rule_doc_comments_document(ck, F, X):
     ck.count("R3:doc comment templates", len(docs))
     for i in docs:
         D = stream[i]
-        bad = None
-        seen_sites = set()
-
-        memo = {}
-
-        def scan(start, dctx, stop_at=None):
-            """follow the stream from `start` under what is known (dctx): {'definite'} when on every way on a line is reached that is
-            always written, 'end' among the results when the stretch can be left without one; lines that can come next and do not
-            begin an item are recorded. A line written only under further conditions can be absent: then (one of) those conditions
-            failed, and whatever depends on them is absent as well."""
-            nonlocal bad
-            key = (start, dctx, stop_at)
-            if key in memo:
-                return memo[key]
-            memo[key] = {"end"}
-            if len(memo) > 4000:
-                return {"end"}
-            j = start
-            out = None
-            while j < len(stream) and (stop_at is None or j < stop_at):
-                E = stream[j]
-                if _excluded_by(dctx, E.ctx) or any(c[0] == "star" and ("nostar", c[1]) in dctx for c in E.ctx):
-                    j += 1
-                    continue
-                extras = [c for c in E.ctx if c not in dctx]
-                if not ITEM_START.match(E.skeleton()) and bad is None:
-                    bad = E
-                if not extras:
-                    out = {"definite"}
-                    break
-                out = set()
-                for k_, x in enumerate(extras):
-                    neg = ("alt", x[1], not x[2]) if x[0] == "alt" else ("nostar", x[1])
-                    out |= scan(j + 1, dctx + tuple(extras[:k_]) + (neg,), stop_at)
-                break
-            if out is None:
-                out = {"end"}
-            memo[key] = out
-            return out
-
-        # the loops D sits in, innermost first: leaving one, the next round of it can come first
-        dctx = tuple(D.ctx)
-        pos = i + 1
-        result = None
-        while True:
-            stars_idx = [k for k, c in enumerate(dctx) if c[0] == "star"]
-            if not stars_idx:
-                result = "definite" if scan(pos, dctx) == {"definite"} else "end"
-                break
-            k = stars_idx[-1]
-            loop_ctx = dctx[:k + 1]
-            # the extent of this loop in the stream: the events around D that carry the loop's context prefix
-            lo = i
-            while lo > 0 and tuple(stream[lo - 1].ctx[:k + 1]) == loop_ctx:
-                lo -= 1
-            hi = i + 1
-            while hi < len(stream) and tuple(stream[hi].ctx[:k + 1]) == loop_ctx:
-                hi += 1
-            r = scan(pos, dctx, stop_at=hi)
-            if r == {"definite"}:
-                result = "definite"
-                break
-            # the next round of the loop starts at its first template; what was decided inside this round does not bind the next
-            scan(lo, loop_ctx, stop_at=hi)
-            # .. or the loop is over
-            dctx = dctx[:k]
-            pos = hi
-        if bad is None and result == "end":
+        nxt, can_end = followers_of(stream, i)
+        bad = next((E for E in nxt if not ITEM_START.match(E.skeleton())), None)
+        if bad is None and can_end:
             ck.violation("R3", f"doc-comment:dangling:{D.fn.rsplit('::', 1)[-1]}", D.site,
                          "a `///` line can be the last thing written: a doc comment at the end of the file documents nothing (rustc: expected item "
                          "after doc comment)", fn="")
@@ -545,6 +560,25 @@ def rule_refs_name_derivable_items(ck, F, X):
                 continue
             ck.undecided("R4", "ref-names-derivable-item", site, f"the type a `ref` member gets could not be evaluated for an element of a built-in type: {u}")
             continue
+        # .. and for an element whose type is a user type, the member refers to the element's own item through the module of the
+        # reference's prefix: the type reference stored with the element was written for the element's place, not for this one
+        node2 = {"rust_type": ("variant", "model::structures::RustType::Element",
+                               ({"xml_name": "homeAddress", "comment": None,
+                                 "element_type": ("variant", "model::structures::element::ElementType::RustType",
+                                                  (("variant", "model::field::RustFieldType::Other", ({"name": "Address_", "module": None},)),))},)),
+                 "in_namespace": None}
+        try:
+            got2 = fde.Evaluator({c: fde.some(node2) for c in calls}, opaque=True).ev(v)
+        except fde.Undecided:
+            got2 = None
+        if isinstance(got2, tuple) and got2 and got2[0] == "variant" and str(got2[1]).rsplit("::", 1)[-1] == "Other" and len(got2) > 2 and got2[2] \
+                and isinstance(got2[2][0], dict) and got2[2][0].get("name") == "Address_":
+            ck.violation("R4", "ref-type-from-reference", site,
+                         "a member made from `ref=` to a global element of a user type takes over the type reference stored with that element "
+                         "(its name and — missing — module were written for the element's own namespace): in the struct that holds the member the "
+                         "name resolves in another module, to another namespace's type of that name or to nothing")
+        elif got2 is not None:
+            ck.ok("R4", "ref-type-from-reference", site, "a `ref` to an element of a user type refers to the element's item through the module of the reference")
         if isinstance(got, tuple) and got and got[0] == "variant" and str(got[1]).rsplit("::", 1)[-1] == "Other":
             ck.violation("R4", "ref-names-derivable-item", site,
                          "a member made from `ref=` to a global element of a built-in type is typed with the element's item, which is written as "
